@@ -56,20 +56,40 @@ class Transport:
         pass
 
 
-def run_history(variant, items):
+CTORS = {"dict": ["instance", "default", "class", "factory", "tcp-subclass"],
+         "fifo": ["instance", "class", "ser-subclass"]}
+
+
+def build_protocol(variant, ctor):
+    """the protocol constructed in every supported way"""
+    from pymodbus.client.asynchronous import twisted as tw
+    from pymodbus.factory import ClientDecoder
+    from pymodbus.transaction import ModbusSocketFramer, ModbusRtuFramer
+    F = ModbusSocketFramer if variant == "dict" else ModbusRtuFramer
+    if ctor == "instance":
+        return tw.ModbusClientProtocol(framer=F(ClientDecoder()))
+    if ctor == "class":
+        return tw.ModbusClientProtocol(framer=F)
+    if ctor == "default":
+        return tw.ModbusClientProtocol()
+    if ctor == "factory":
+        return tw.ModbusClientFactory().buildProtocol(None)
+    if ctor == "tcp-subclass":
+        return tw.ModbusTcpClientProtocol()
+    if ctor == "ser-subclass":
+        return tw.ModbusSerClientProtocol()
+    raise ValueError(ctor)
+
+
+def run_history(variant, items, ctor="instance"):
     """items: ("exec", unit) | ("reply", [(j | None, tid_if_unsolicited, unit_override | None, rid), ...]) |
               ("lost",) | ("made",) | ("skip", n)
     returns observation dict with the resolved ops"""
-    from pymodbus.client.asynchronous.twisted import ModbusClientProtocol
     from pymodbus.factory import ClientDecoder
     from pymodbus.transaction import ModbusSocketFramer, ModbusRtuFramer
     from pymodbus.register_read_message import ReadHoldingRegistersRequest, ReadHoldingRegistersResponse
-    if variant == "dict":
-        proto = ModbusClientProtocol(framer=ModbusSocketFramer(ClientDecoder()))
-        builder = ModbusSocketFramer(ClientDecoder())
-    else:
-        proto = ModbusClientProtocol(framer=ModbusRtuFramer(ClientDecoder()))
-        builder = ModbusRtuFramer(ClientDecoder())
+    proto = build_protocol(variant, ctor)
+    builder = ModbusSocketFramer(ClientDecoder()) if variant == "dict" else ModbusRtuFramer(ClientDecoder())
     tr = Transport()
     proto.transport = tr
     alloc = 0
@@ -146,7 +166,7 @@ def run_history(variant, items):
             for _ in range(it[1]):
                 proto.transaction.getNextTID()
             alloc += it[1]
-    if variant == "dict":
+    if isinstance(proto.transaction.transactions, dict):
         pending = [(int(k), did_of.get(id(v), 0)) for k, v in proto.transaction.transactions.items()]
     else:
         tid_of = dict((d, t) for d, t in sent)
@@ -193,10 +213,9 @@ def region(variant, items):
         elif it[0] == "lost":
             conn, out = False, []
         elif it[0] == "reply":
-            us = set()
-            for j, utid, uover, rid in it[1]:
-                us.add(uover if uover is not None else (items_unit(items, j)))
-            if len(us) > 1:
+            us = [uover if uover is not None else (items_unit(items, j)) for j, utid, uover, rid in it[1]]
+            # the first frame's unit is the only expected unit, unless it is the wildcard 0 / 0xFF
+            if us and us[0] not in (0, 255) and any(u != us[0] for u in us):
                 regs.add("mixed-unit")
     return sorted(regs)
 
@@ -208,12 +227,13 @@ def items_unit(items, j):
     return 1
 
 
-def mk_case(variant, items, label):
-    o = run_history(variant, items)
-    desc = {"variant": variant, "items": [list(i) if not isinstance(i, str) else i for i in items],
+def mk_case(variant, items, label, ctor="instance"):
+    o = run_history(variant, items, ctor)
+    desc = {"variant": variant, "ctor": ctor, "items": [list(i) if not isinstance(i, str) else i for i in items],
             "resolved_ops": o["ops"], "fired": [list(f) for f in o["fired"]], "sent": o["sent"],
             "escaped": o["escaped"], "region": region(variant, items)}
-    return Case(obs_term(o), desc, kind=label, nontrivial=bool(o["fired"]), key=(variant, tuple(o["ops"])))
+    return Case(obs_term(o), desc, kind=label + ("" if ctor == "instance" else "@" + ctor),
+                nontrivial=bool(o["fired"]), key=(variant, ctor, tuple(o["ops"])))
 
 
 # ----------------------------------------------------------------------------- history generators
@@ -329,6 +349,42 @@ def gen_reentrant(r, n):
     return cases
 
 
+def gen_units():
+    """requests to the gateway id 0xFF, to unit 0 and to units 1, 2 outstanding; all replies in ONE segment,
+    in every order, and split into two segments"""
+    cases = []
+    units = [255, 1, 0, 2]
+    head = [("made",)] + [("exec", u) for u in units]
+    for perm in itertools.permutations(range(4)):
+        fr = [(j, 0, None, 100 + j) for j in perm]
+        cases.append(mk_case("dict", head + [("reply", fr)], "units-one-segment"))
+        cases.append(mk_case("dict", head + [("reply", fr[:2]), ("reply", fr[2:])], "units-two-segments"))
+    for sub in ([255, 1], [0, 2], [1, 255], [2, 0], [255, 0], [255, 1, 2], [1, 2, 255]):
+        h = [("made",)] + [("exec", u) for u in sub]
+        for perm in itertools.permutations(range(len(sub))):
+            cases.append(mk_case("dict", h + [("reply", [(j, 0, None, 50 + j) for j in perm])], "units-subset"))
+    return cases
+
+
+def gen_ctors(r, n):
+    """the protocol built every supported way: default, framer instance, framer CLASS, factory, subclasses"""
+    cases = []
+    for v in ("dict", "fifo"):
+        for ctor in CTORS[v][1:]:
+            if v == "dict":
+                for k in range(1, 5):
+                    for perm in itertools.permutations(range(k)):
+                        items = [("made",)] + [("exec", 1)] * k + [("reply", [(j, 0, None, 100 + j)]) for j in perm]
+                        cases.append(mk_case(v, items, "perm-%d" % k, ctor))
+                items = [("made",), ("exec", 1), ("exec", 1), ("reply", [(1, 0, None, 5)]), ("reply", [(1, 0, None, 6)]),
+                         ("reply", [(None, 777, None, 7)]), ("reply", [(0, 0, None, 8)]), ("lost",), ("exec", 1)]
+                cases.append(mk_case(v, items, "dup-unsolicited", ctor))
+            for _ in range(n):
+                items = fifo_history(r) if v == "fifo" else random_history(r, "dict")
+                cases.append(mk_case(v, items, "random-%s" % v, ctor))
+    return cases
+
+
 def gen_wrap():
     cases = []
     # no request outstanding across the wrap: fine
@@ -356,6 +412,7 @@ def suites(tier):
     cases = gen_permutations() + gen_loss_everywhere() + gen_wrap() + gen_long()
     n = 500 if tier == "quick" else 8000
     cases += gen_reentrant(r, n // 5)
+    cases += gen_units() + gen_ctors(r, n // 10)
     for _ in range(n):
         cases.append(mk_case("dict", random_history(r, "dict"), "random-dict"))
     for _ in range(n // 3):
@@ -382,14 +439,14 @@ def _items(w):
 
 def replay_finding(f):
     from lib import coqrun
-    o = run_history(f["witness"]["variant"], _items(f["witness"]["items"]))
+    o = run_history(f["witness"]["variant"], _items(f["witness"]["items"]), f["witness"].get("ctor", "instance"))
     r = coqrun.eval_cases("C16_finding", IMPORTS, "chk_async code", [obs_term(o)])
     return bool(r["propfail"])
 
 
 def replay_case(suite, desc):
     from lib import coqrun
-    o = run_history(desc["variant"], _items(desc["items"]))
+    o = run_history(desc["variant"], _items(desc["items"]), desc.get("ctor", "instance"))
     print(o)
     r = coqrun.eval_cases("C16_replay", IMPORTS, "chk_async code", [obs_term(o)])
     print(r)
